@@ -13,7 +13,7 @@ CHECKS = {
          'Offline side is the real offline monitor (checked by C01); RefDiscrete arbitrates; <=14 updates, depth<=5.'),
  'C03': ('exploration', '4 C03', TECH + 'pastified monitor stepped online; delayed output compared with the real offline monitor on each prefix; unit notation and sampling period varied',
          'Seeded exploration of (bounded-future specification, unit notation, sampling period, trace); for every i >= h the i-th update must equal offline(original)[i-h] on the prefix; specs without future operators must be unaffected by pastify().',
-         'Horizon from RefHorizon; open finding F08: a past operator with unbounded memory above a delayed operand is excluded from the search, one with bounded memory m is compared from update h + m on (common.warmup_extra).'),
+         'Horizon from RefHorizon; open finding F08: a past operator with unbounded memory above a delayed operand is excluded from the search, one with bounded memory m is compared from update h + m on (common.warmup_extra). A second pastify() between two updates (a use no property specifies) may continue the stream or start a new episode; only an exception or values of neither continuation are reported.'),
  'C04': ('exploration', '4 C04', TECH + 'independent sensor clocks whose sample instants interleave (Allen relations), redundant re-sampling; refinement against RefDense over the recorded signals',
          'Seeded exploration of (dense-time specification, independently sampled signals); output must be non-decreasing in time, start at the common-domain start and denote RefDense at every break-point and mid-point; re-sampling must not change the denoted result.',
          'Trusts sim/ref/dense.py; envelope rule bounded-op-nonzero-start (open finding F14a, pinned by the suite) removes that region.'),
